@@ -9,6 +9,7 @@ package global
 
 import (
 	"context"
+	"errors"
 	"fmt"
 	"sort"
 	"strings"
@@ -60,10 +61,16 @@ type c16Meter struct {
 	name string
 }
 
-func (m c16Meter) made(n string) {
+// made records the creation; instrument names that start with "bad" are refused the way an SDK
+// refuses an instrument: (nil, error).
+func (m c16Meter) made(n string) error {
 	m.s.mu.Lock()
 	m.s.created[n]++
 	m.s.mu.Unlock()
+	if strings.HasPrefix(n, "bad") {
+		return errors.New("c16: instrument refused")
+	}
+	return nil
 }
 
 type c16Counter struct {
@@ -115,23 +122,33 @@ type c16ObsCounter struct {
 }
 
 func (m c16Meter) Int64Counter(n string, _ ...metric.Int64CounterOption) (metric.Int64Counter, error) {
-	m.made(n)
+	if err := m.made(n); err != nil {
+		return nil, err
+	}
 	return c16Counter{s: m.s, n: n}, nil
 }
 func (m c16Meter) Float64Histogram(n string, _ ...metric.Float64HistogramOption) (metric.Float64Histogram, error) {
-	m.made(n)
+	if err := m.made(n); err != nil {
+		return nil, err
+	}
 	return c16Hist{s: m.s, n: n}, nil
 }
 func (m c16Meter) Float64UpDownCounter(n string, _ ...metric.Float64UpDownCounterOption) (metric.Float64UpDownCounter, error) {
-	m.made(n)
+	if err := m.made(n); err != nil {
+		return nil, err
+	}
 	return c16UpDown{s: m.s, n: n}, nil
 }
 func (m c16Meter) Int64ObservableGauge(n string, _ ...metric.Int64ObservableGaugeOption) (metric.Int64ObservableGauge, error) {
-	m.made(n)
+	if err := m.made(n); err != nil {
+		return nil, err
+	}
 	return c16Gauge{s: m.s, n: n}, nil
 }
 func (m c16Meter) Float64ObservableCounter(n string, _ ...metric.Float64ObservableCounterOption) (metric.Float64ObservableCounter, error) {
-	m.made(n)
+	if err := m.made(n); err != nil {
+		return nil, err
+	}
 	return c16ObsCounter{s: m.s, n: n}, nil
 }
 
@@ -147,7 +164,9 @@ func (c c16Int64UpDownCounter) Add(_ context.Context, v int64, _ ...metric.AddOp
 	c.s.mu.Unlock()
 }
 func (m c16Meter) Int64UpDownCounter(n string, _ ...metric.Int64UpDownCounterOption) (metric.Int64UpDownCounter, error) {
-	m.made(n)
+	if err := m.made(n); err != nil {
+		return nil, err
+	}
 	return c16Int64UpDownCounter{s: m.s, n: n}, nil
 }
 
@@ -163,7 +182,9 @@ func (c c16Int64Histogram) Record(_ context.Context, v int64, _ ...metric.Record
 	c.s.mu.Unlock()
 }
 func (m c16Meter) Int64Histogram(n string, _ ...metric.Int64HistogramOption) (metric.Int64Histogram, error) {
-	m.made(n)
+	if err := m.made(n); err != nil {
+		return nil, err
+	}
 	return c16Int64Histogram{s: m.s, n: n}, nil
 }
 
@@ -179,7 +200,9 @@ func (c c16Int64Gauge) Record(_ context.Context, v int64, _ ...metric.RecordOpti
 	c.s.mu.Unlock()
 }
 func (m c16Meter) Int64Gauge(n string, _ ...metric.Int64GaugeOption) (metric.Int64Gauge, error) {
-	m.made(n)
+	if err := m.made(n); err != nil {
+		return nil, err
+	}
 	return c16Int64Gauge{s: m.s, n: n}, nil
 }
 
@@ -195,7 +218,9 @@ func (c c16Float64Counter) Add(_ context.Context, v float64, _ ...metric.AddOpti
 	c.s.mu.Unlock()
 }
 func (m c16Meter) Float64Counter(n string, _ ...metric.Float64CounterOption) (metric.Float64Counter, error) {
-	m.made(n)
+	if err := m.made(n); err != nil {
+		return nil, err
+	}
 	return c16Float64Counter{s: m.s, n: n}, nil
 }
 
@@ -211,7 +236,9 @@ func (c c16Float64Gauge) Record(_ context.Context, v float64, _ ...metric.Record
 	c.s.mu.Unlock()
 }
 func (m c16Meter) Float64Gauge(n string, _ ...metric.Float64GaugeOption) (metric.Float64Gauge, error) {
-	m.made(n)
+	if err := m.made(n); err != nil {
+		return nil, err
+	}
 	return c16Float64Gauge{s: m.s, n: n}, nil
 }
 
@@ -222,7 +249,9 @@ type c16Int64ObservableCounter struct {
 }
 
 func (m c16Meter) Int64ObservableCounter(n string, _ ...metric.Int64ObservableCounterOption) (metric.Int64ObservableCounter, error) {
-	m.made(n)
+	if err := m.made(n); err != nil {
+		return nil, err
+	}
 	return c16Int64ObservableCounter{s: m.s, n: n}, nil
 }
 
@@ -233,7 +262,9 @@ type c16Int64ObservableUpDownCounter struct {
 }
 
 func (m c16Meter) Int64ObservableUpDownCounter(n string, _ ...metric.Int64ObservableUpDownCounterOption) (metric.Int64ObservableUpDownCounter, error) {
-	m.made(n)
+	if err := m.made(n); err != nil {
+		return nil, err
+	}
 	return c16Int64ObservableUpDownCounter{s: m.s, n: n}, nil
 }
 
@@ -244,7 +275,9 @@ type c16Float64ObservableUpDownCounter struct {
 }
 
 func (m c16Meter) Float64ObservableUpDownCounter(n string, _ ...metric.Float64ObservableUpDownCounterOption) (metric.Float64ObservableUpDownCounter, error) {
-	m.made(n)
+	if err := m.made(n); err != nil {
+		return nil, err
+	}
 	return c16Float64ObservableUpDownCounter{s: m.s, n: n}, nil
 }
 
@@ -255,7 +288,9 @@ type c16Float64ObservableGauge struct {
 }
 
 func (m c16Meter) Float64ObservableGauge(n string, _ ...metric.Float64ObservableGaugeOption) (metric.Float64ObservableGauge, error) {
-	m.made(n)
+	if err := m.made(n); err != nil {
+		return nil, err
+	}
 	return c16Float64ObservableGauge{s: m.s, n: n}, nil
 }
 
@@ -411,6 +446,7 @@ func c16Body(sc c16Scn, res *string) func(x *sched.Exec) {
 			sMust    []bool
 			props    []propagation.TextMapPropagator
 			propLost bool
+			after    []func() // use of refused instruments after the join: must stay harmless
 		}
 		outs := make([]out, len(sc.threads))
 		var wg vsync.WaitGroup
@@ -495,6 +531,25 @@ func c16Body(sc c16Scn, res *string) func(x *sched.Exec) {
 							made{func(v int) { c.Record(ctx, int64(v)) }, "ig", val, must},
 							made{func(v int) { d.Add(ctx, float64(v)) }, "fc", val, must},
 							made{func(v int) { e.Record(ctx, float64(v)) }, "fg", val, must})
+					case "BadSync": // instruments the SDK will refuse with (nil, error), next to a healthy one
+						m := MeterProvider().Meter("z")
+						a, _ := m.Int64Counter("bad counter")
+						b, _ := m.Float64Histogram("bad histogram")
+						c, _ := m.Int64Gauge("bad gauge")
+						d, _ := m.Float64UpDownCounter("bad updown")
+						if a == nil || b == nil || c == nil || d == nil {
+							break // created after the installation: the SDK itself refused, nothing to use
+						}
+						a.Add(ctx, 1)
+						b.Record(ctx, 1)
+						c.Record(ctx, 1)
+						d.Add(ctx, 1)
+						o.after = append(o.after, func() { a.Add(ctx, 1); b.Record(ctx, 1); c.Record(ctx, 1); d.Add(ctx, 1) })
+					case "BadAsync":
+						m := MeterProvider().Meter("z")
+						a, _ := m.Int64ObservableCounter("bad ocounter")
+						b, _ := m.Float64ObservableGauge("bad ogauge")
+						_, _ = a, b
 					case "AllAsync": // the remaining asynchronous kinds behind one callback
 						m := MeterProvider().Meter("z")
 						a, _ := m.Int64ObservableCounter("ioc")
@@ -571,6 +626,11 @@ func c16Body(sc c16Scn, res *string) func(x *sched.Exec) {
 					x.Fail("C16|span-after-install-not-forwarded", "tracer obtained from the global API: a span started after SetTracerProvider returned reached the SDK %d times", len(sdk.spans)-before)
 				}
 				_ = i
+			}
+		}
+		for ti := range outs {
+			for _, f := range outs[ti].after {
+				f()
 			}
 		}
 		for ti := range outs {
@@ -657,6 +717,7 @@ func c16Jobs(thorough, race bool) []c16Job {
 		{"G8-propagator", [][]string{{"InstallP"}, {"Inject", "Inject"}}},
 		{"G9-self-set-then-install", [][]string{{"Span", "Ctr", "Inject", "SelfT", "SelfM", "SelfP", "InstallT", "InstallM", "InstallP"}, {"Span", "Ctr", "Inject"}}},
 		{"G10-self-set-racing-install", [][]string{{"SelfT", "SelfM"}, {"InstallT", "InstallM"}, {"Span", "Ctr"}}},
+		{"G11-sdk-refuses-instruments", [][]string{{"BadSync", "Ctr", "BadAsync", "InstallM"}, {"BadSync", "Ctr"}, {"BadAsync", "Cb"}}},
 	}
 	p := 3
 	if thorough {
